@@ -11,14 +11,14 @@ use std::borrow::Cow;
 
 macro_rules! dom_fn {
     ($name:ident, $f:expr, $e:expr, $m:expr) => {
-        fn $name(s: &str) -> Cow<str> {
+        fn $name(s: &str) -> Cow<'_, str> {
             fluent_pseudo::transform_dom(s, $f, $e, $m)
         }
     };
 }
 macro_rules! plain_fn {
     ($name:ident, $f:expr, $e:expr) => {
-        fn $name(s: &str) -> Cow<str> {
+        fn $name(s: &str) -> Cow<'_, str> {
             fluent_pseudo::transform(s, $f, $e)
         }
     };
@@ -36,7 +36,7 @@ plain_fn!(p01, false, true);
 plain_fn!(p10, true, false);
 plain_fn!(p11, true, true);
 
-fn pick(dom: bool, f: bool, e: bool, m: bool) -> fn(&str) -> Cow<str> {
+fn pick(dom: bool, f: bool, e: bool, m: bool) -> fn(&str) -> Cow<'_, str> {
     if dom {
         match (f, e, m) {
             (false, false, false) => d000,
@@ -72,7 +72,7 @@ fn inline_text(input: &str) -> bool {
     !(first == ' ' || last == ' ' || first == '[' || first == '.' || first == '*')
 }
 
-fn through_bundle(input: &str, func: fn(&str) -> Cow<str>) -> (String, String) {
+fn through_bundle(input: &str, func: fn(&str) -> Cow<'_, str>) -> (String, String) {
     if !inline_text(input) {
         return ("na".into(), "na".into());
     }
